@@ -212,7 +212,7 @@ func TestMono(t *testing.T) {
 		{"rampSwapped", "t", false, mono.Unknown, ""},
 		{"rampOvershoot", "t", false, mono.Unknown, ""},
 		{"clamp", "t", false, mono.Up, ""},
-		{"coerce", "v", false, mono.Unknown, ""}, // not monotone when lo > hi
+		{"coerce", "v", false, mono.Unknown, ""},     // not monotone when lo > hi
 		{"cycle", "target", false, mono.Unknown, ""}, // limit may be negative
 		{"cycle", "target", false, mono.Up, "limit"},
 		{"sum", "vs", true, mono.Up, ""},
